@@ -523,6 +523,20 @@ pub fn mesh_cases(seed: u64, count: usize, max_vertices: usize) -> String {
         let _ = writeln!(out, "MESHBIN {} {}", i, hx(&bin));
         let dec = bin_to_mesh(&bin);
         let _ = writeln!(out, "MESHDEC {} {}", i, mesh_fields(&dec));
+        // a download cut off somewhere (the transfer limit): what the real decoder does with a prefix
+        if rng.chance(1, 3) && !bin.is_empty() {
+            let cut = rng.below(bin.len() as u64) as usize;
+            let bad = bin[..cut].to_vec();
+            let _ = writeln!(out, "MESHBAD {} {}", i, if bad.is_empty() { "-".to_string() } else { hx(&bad) });
+            match std::panic::catch_unwind(|| bin_to_mesh(&bad)) {
+                Ok(m) => {
+                    let _ = writeln!(out, "MESHBADDEC {} {}", i, mesh_fields(&m));
+                }
+                Err(_) => {
+                    let _ = writeln!(out, "MESHBADDEC {} PANIC", i);
+                }
+            }
+        }
     }
     out
 }
@@ -804,6 +818,22 @@ pub fn image_cases(seed: u64, count: usize, max_extent: u32) -> String {
                     }
                     Some(dec) => {
                         let _ = writeln!(out, "IMGDEC {} {}", i, image_fields(&dec));
+                    }
+                }
+                if rng.chance(1, 3) && !bin.is_empty() {
+                    let cut = rng.below(bin.len() as u64) as usize;
+                    let bad = bin[..cut].to_vec();
+                    let _ = writeln!(out, "IMGBAD {} {}", i, if bad.is_empty() { "-".to_string() } else { hx(&bad) });
+                    match std::panic::catch_unwind(|| bin_to_image(&bad)) {
+                        Ok(None) => {
+                            let _ = writeln!(out, "IMGBADDEC {} NONE", i);
+                        }
+                        Ok(Some(dec)) => {
+                            let _ = writeln!(out, "IMGBADDEC {} {}", i, image_fields(&dec));
+                        }
+                        Err(_) => {
+                            let _ = writeln!(out, "IMGBADDEC {} PANIC", i);
+                        }
                     }
                 }
             }
